@@ -11,6 +11,7 @@ package curl
 // round function (written in closed form, lemma idx_is_rotation ties it to 364*i mod 729); st(n, i, w, l0, h0) is word i (w = 0: low plane, 1: high plane) after n rounds.
 
 //@ props C20 C06
+//@ alsotags purego
 
 //@ spec idx(i int) int = ite(i%2 == 0, ite(i == 0, 0, 729 - i/2), 364 - (i-1)/2)
 //@ fun sbL(aL uint, aH uint, bL uint, bH uint) uint = ^(aL & (aH ^ bL))
